@@ -156,6 +156,9 @@ class ByteArray(SimpleModel):
 
     @classmethod
     def from_hex(cls, value):
+        # text protocols hand over the whole literal as one string
+        if isinstance(value, six.text_type):
+            return (unhexlify(value),)
         return (unhexlify(_bytes_join(value)),)
 
 
